@@ -552,6 +552,8 @@ func TestVerif_C35_Replay(t *testing.T) {
 			r.startWaiter(nil)
 		}
 		have := map[int]bool{}
+		stateDiverged := false
+		prevGot := []c35Conf{}
 		checkRet := func(i int, exp c35Ret, got c35Ret) {
 			if got == exp {
 				return
@@ -590,21 +592,27 @@ func TestVerif_C35_Replay(t *testing.T) {
 			}
 			got := r.snapshot()
 			exp := c35ConfOf(st.Get("conf"))
-			if !c35SameConf(got, exp) {
+			if !stateDiverged && !c35SameConf(got, exp) {
+				// attribute the divergence to this message: what did the
+				// listener do with it (doneSigners before vs. after)?
+				stateDiverged = true
+				stored := len(got) > len(prevGot)
 				var key, what string
-				if !st.Get("ok").Bool() && len(got) > len(exp) {
+				switch {
+				case !st.Get("ok").Bool() && stored:
 					key = "accept:stored:" + reason
 					what = fmt.Sprintf("the listener stored a confirmation the contract rejects (%s): %+v", reason, m)
-				} else if st.Get("ok").Bool() && len(got) < len(exp) {
+				case st.Get("ok").Bool() && !stored:
 					key = "accept:dropped-valid"
 					what = fmt.Sprintf("the listener dropped a valid confirmation: %+v", m)
-				} else {
+				default:
 					key = "accept:state"
 					what = fmt.Sprintf("doneSigners differs from the specification after %+v", m)
 				}
 				addDiv(c35Div{len(h.steps), h.idx, key, what, map[string]interface{}{"mode": mode, "history": msgs, "step": i + 1, "included": w.cfg.Included}, exp, got})
 				// continue: the result comparison below shows the consequence
 			}
+			prevGot = got
 			if st.Get("ok").Bool() {
 				have[m.Sid] = true
 			}
